@@ -72,6 +72,10 @@ func (s *DiscoveryService) Start(ctx context.Context) error {
 			Type:            s.registryConfig.Type,
 			EnableUnifier:   s.registryConfig.EnableUnifier,
 			UnificationConf: &s.registryConfig.Unification,
+			// hand the configured model routing strategy (and ourselves as its discovery
+			// service) to the registry; without these it silently runs "strict"
+			RoutingStrategy: &s.registryConfig.RoutingStrategy,
+			Discovery:       s,
 		}
 		var err error
 		s.registry, err = registry.NewModelRegistry(registryConfig, s.logger)
